@@ -768,7 +768,14 @@ def _skip_event(*events, **kwargs):
     if changed is None:
         return False
     for e in events:
-        for p in changed:
+        if isinstance(changed, dict):
+            # {parameter name: [(sub-path, what), ...] or None}
+            subpaths = changed.get(e.name)
+            if subpaths is None:
+                return False
+        else:
+            subpaths = [(p, what) for p in changed]
+        for p, what in subpaths:
             if what == 'value':
                 old = Undefined if e.old is None else _getattrr(e.old, p, None)
                 new = Undefined if e.new is None else _getattrr(e.new, p, None)
@@ -2408,13 +2415,27 @@ class Parameters:
             if g.name not in params:
                 params.append(g.name)
 
-        if dynamic_dep is None:
-            subparams, callback, what = None, None, param_dep.what
-        else:
-            subparams, callback, what = self_._resolve_dynamic_deps(
-                obj, dynamic_dep, param_dep, attribute)
+        # For every watched parameter that holds a sub-object on the path
+        # of some dependency: the (sub-path, what) pairs whose values decide
+        # whether replacing the sub-object is a change. Collected over all
+        # the dependencies of the group; parameters that are depended on
+        # themselves (not only as a path element) are not filtered.
+        what, changed, callback = param_dep.what, {}, None
+        for ddep, pdep in group:
+            if ddep is None:
+                changed[pdep.name] = None
+                continue
+            subparams, cb, dwhat = self_._resolve_dynamic_deps(obj, ddep, pdep, attribute)
+            callback = callback or cb
+            if subparams is None:
+                changed[pdep.name] = None
+            elif changed.get(pdep.name, []) is not None:
+                subpaths = changed.setdefault(pdep.name, [])
+                subpaths.extend((sp, dwhat) for sp in subparams if (sp, dwhat) not in subpaths)
+        if all(v is None for v in changed.values()):
+            changed = None
 
-        mcaller = _m_caller(obj, name, what, subparams, callback)
+        mcaller = _m_caller(obj, name, what, changed, callback)
         return dep_obj.param._watch(
             mcaller, params, param_dep.what, queued=queued, precedence=-1)
 
